@@ -46,7 +46,18 @@ def main() -> int:
     except core.Infra as e:
         print(f"INFRA-ERROR property={a.prop}: {e}", file=sys.stderr)
         return 2
-    except Exception:
+    except Exception as e:
+        tb = traceback.extract_tb(sys.exc_info()[2])
+        in_repo = [fr for fr in tb if str(core.REPO) in fr.filename]
+        if in_repo and not a.replay:
+            # the library itself raised where the harness expects it to work (e.g. while preparing a case):
+            # that is behaviour of the code under test, to be reported, not an infrastructure failure
+            last = in_repo[-1]
+            ctx.disagree("the implementation raised %s inside the harness at %s:%d (%s): %s"
+                         % (type(e).__name__, last.filename.replace(str(core.REPO) + "/", ""), last.lineno, last.name, str(e)[:200]),
+                         {"traceback_tail": [f"{fr.filename}:{fr.lineno} {fr.name}" for fr in tb[-6:]]})
+            ctx.notes.append("run aborted early by an exception raised inside the implementation")
+            return ctx.finish()
         traceback.print_exc()
         print(f"INFRA-ERROR property={a.prop}: unexpected exception in the harness", file=sys.stderr)
         return 2
